@@ -280,6 +280,14 @@ class _LandmarksConditional:
         else:
             logger.debug("Assuming y is not the mean of the GP.")
             y_cov_factor = _sigma_to_y_cov_factor(sigma, y_cov_factor, xu.shape[0])
+            if ndim(y_cov_factor) != 2 or y_cov_factor.shape[0] != xu.shape[0]:
+                message = (
+                    f"The input noise describes {y_cov_factor.shape[0]:,} points but there are "
+                    f"{xu.shape[0]:,} landmarks. A per-cell `sigma` cannot be combined with "
+                    "landmarks; pass a scalar `sigma` or omit the landmarks."
+                )
+                logger.error(message)
+                raise ValueError(message)
             sigma = None
             LLB = add_variance(LLB, y_cov_factor, jitter=jitter)
 
